@@ -482,6 +482,8 @@ PROPS["C14"] = {
                        "input:random-text": 100, "input:generated-doc-mutant": 1000, "input:truncation": 1000,
                        "input:fixture-mutant": 100, "input:package-mutant": 1000, "input:random-bytes": 100,
                        "input:shaped-wat-mutant": 100, "input:document-package-pairing": 100, "shaped-wat": 10}},
+    "lanes": {"thorough": [{"name": "asan", "cases": 1500, "workers": 16, "budget_s": 900},
+                           {"name": "miri", "cases": 2, "workers": 12, "budget_s": 1200}]},
     "rule": "Texts: random token/unicode soup; grammar-generated documents with 1-3 character-level edits (delete, insert "
             "punctuation / multi-byte / bidi / NUL characters, replace, swap, duplicate a chunk, truncate) and truncation at every "
             "character boundary of small documents; character-level mutants of the repository's fixture documents; 8 kinds of "
